@@ -247,6 +247,15 @@ def rule_at(rep, d, fn, symmap):
         rep.violates("C16.at", label, "bounds test", where=d.where(s), detail="the out-of-range branch does not throw")
         return
     thrown = [ir.qtype(ir.ekids(x)[0]) for x in ir.walk_expr(ks[1]) if x.get("kind") == "CXXThrowExpr" and ir.ekids(x)]
+    # an index or size converted to a signed type before the comparison is not the value being compared: indices above PTRDIFF_MAX
+    # (e.g. i - 1 with i == 0) become negative and pass
+    narrowing = [t for t in ir.subterms(cond) if t[0] == "cast" and str(t[2]).replace("const ", "") in ("long", "int", "long long", "short", "signed char", "std::ptrdiff_t")
+                 and t[3][0] != "lit"]
+    if narrowing:
+        rep.violates("C16.at", label, "bounds test", where=d.where(s),
+                     detail="the test `%s` compares after converting an unsigned index/size to the signed type %s: an index above PTRDIFF_MAX turns negative and is accepted" % (
+                         ir.show(cond)[:120], narrowing[0][2]))
+        return
     # the fall-through path has the negated condition as its facts
     nonneg = {"S", "idx"} | {p.get("name") for p in ir.params(fn)}
     cases = guard_cases(("un", "!", cond), symmap, nonneg)
